@@ -113,6 +113,7 @@ class Mk:
         return value
 
     def array(self, name, shape, sort="real"):
+        """sort: 'real' | 'int' | 'bool' | 'xreal' (reals that may be NaN)"""
         a = sym_array(name, tuple(shape), sort)
         self.obs[name] = ("array", a.func, tuple(shape), sort)
         return self.st.alloc(a, name)
@@ -178,6 +179,13 @@ class Obligation:
             fs += sk_hyps
         fs.append(z3.Not(T.to_z3(g)) if not isinstance(g, bool) else z3.BoolVal(not g))
         if instantiate:
+            if instantiate == "hoisted":
+                # ground instances at all index terms, nested quantifiers hoisted (several rounds)
+                fs += T.instantiate_hoisted(fs)
+                fs += T.sum_axioms(fs)
+                fs += T.ext_axioms(fs)
+                fs += T.theory_axioms(fs, extra_trig=extra_trig)
+                return fs
             # lemma-schema instances for the Sum applications of the goal (they introduce skolem
             # indices), then ground instances of the quantified hypotheses at the (few) index terms
             # now in play, then lemma instances again for the Sum applications those exposed
@@ -440,6 +448,7 @@ def verify_contract(prop, contract, registry=None, options=None, sizes=None, onl
         ctx.interp = interp
         lib.CUR_INTERP[0] = interp
         lib.USED.clear()
+        lib.OPTIONS["finite_reals"] = bool(contract.options.get("finite_reals"))
         st = State()
         st.env = Env(module=mod)
         mk = Mk(st, sizes)
@@ -543,6 +552,8 @@ def describe(st, v):
         return ("carray", list(d.shape), {",".join(map(str, k)): describe(st, x) for k, x in d.data.items()})
     if isinstance(d, Arr):
         if getattr(d, "func", None) is not None and not d.ups:
+            if getattr(d, "nanfunc", None) is not None:
+                return ("xarray", d.func, tuple(d.shape), d.nanfunc)
             return ("array", d.func, tuple(d.shape), d.sort)
         return ("opaque", "array")
     if isinstance(d, dict):
@@ -570,7 +581,7 @@ def _read(m, desc):
         return desc[1]
     if kind == "carray":
         return {"shape": desc[1], "cells": {k: _read(m, x) for k, x in desc[2].items()}}
-    if kind == "array":
+    if kind in ("array", "xarray"):
         f, shape = desc[1], desc[2]
         dims = []
         for sh in shape:
@@ -581,6 +592,8 @@ def _read(m, desc):
         cells = {}
         for k in itertools.product(*[range(n) for n in dims]):
             cells[",".join(map(str, k))] = _model_value(m, f(*[z3.IntVal(i) for i in k]))
+            if kind == "xarray" and _model_value(m, desc[3](*[z3.IntVal(i) for i in k])) is True:
+                cells[",".join(map(str, k))] = "nan"
         return {"shape": dims, "cells": cells}
     if kind == "dict":
         return {k: _read(m, x) for k, x in desc[1].items()}
@@ -730,6 +743,25 @@ def _solve_one(args):
                 return (idx, "discharged", "z3+nl-abstraction", time.time() - t0, None, " ".join(attempts))
     except Exception as e:
         attempts.append(f"inst-error={type(e).__name__}:{e}")
+    try:
+        # the ground part of the hoisted-instantiation problem alone (quantified hypotheses dropped: sound for
+        # unsat).  Quantifier-free, so z3 runs its complete arithmetic procedures (integer / to_int reasoning is
+        # weak next to quantifiers).
+        fh = ob.formulas(extra_trig=trig, instantiate="hoisted")
+        fg = [f for f in fh if T.quantifier_free(f)]
+        try:
+            r10, _ = _z3_check(T.abstract_nonlinear(fg), min(timeout_ms, 25000))
+        except z3.Z3Exception as e:
+            r10 = f"error({e})"
+        attempts.append(f"z3[hoisted-ground+nl-abstraction]={r10}")
+        if r10 == z3.unsat:
+            return (idx, "discharged", "z3+nl-abstraction", time.time() - t0, None, " ".join(attempts))
+        r11, _ = _z3_check(fg, min(timeout_ms, 6000))
+        attempts.append(f"z3[hoisted-ground]={r11}")
+        if r11 == z3.unsat:
+            return (idx, "discharged", "z3+instantiation", time.time() - t0, None, " ".join(attempts))
+    except Exception as e:
+        attempts.append(f"hoisted-error={type(e).__name__}:{e}")
     if model is None and timeout_ms > short:
         r4, s4 = _z3_check(fs, timeout_ms)
         attempts.append(f"z3[full]={r4}")
